@@ -599,6 +599,71 @@ class Body:
         ap = self.access_path(rv["place"])
         return ap, {v: n for v, n in rv["variants"]}, rv["adt"]
 
+    def _promoted_variant(self, op):
+        """operand that is (a reference chain to) a promoted constant building one fieldless enum variant:
+        its variant name, else None."""
+        seen = set()
+        while op is not None and op["k"] in ("copy", "move"):
+            l = op["place"]["l"]
+            if l in seen:
+                return None
+            seen.add(l)
+            ds = [x for x in self.defs().get(l, []) if x[0] == "assign"]
+            if len(ds) != 1:
+                return None
+            rv = ds[0][3]["rv"]
+            if rv["k"] == "ref":
+                op = {"k": "copy", "place": rv["place"]}
+            elif rv["k"] == "use":
+                op = rv["op"]
+            else:
+                return None
+        if op is None or op["k"] != "const":
+            return None
+        import re as _re
+        m = _re.match(r"^(?:const )?(.*)::promoted\[(\d+)\]$", str(op.get("repr") or ""))
+        proms = self.fn.get("promoted") or []
+        if not m or m.group(1) != self.id or int(m.group(2)) >= len(proms):
+            return None
+        vals = []
+        for blk in proms[int(m.group(2))]["blocks"]:
+            for st in blk["stmts"]:
+                if st["k"] == "assign" and st["rv"]["k"] == "aggregate":
+                    if st["rv"].get("akind") != "adt" or st["rv"].get("ops"):
+                        return None
+                    vals.append(st["rv"]["variant"])
+        return vals[0] if len(vals) == 1 else None
+
+    def eq_switch_info(self, b):
+        """For a switch on the bool of `place == &Enum::Variant` / `!=` (PartialEq on a fieldless variant constant):
+        (access_path, variant, block taken when equal, block taken when different), else None."""
+        t = self.term(b)
+        if not t or t["k"] != "switch" or len(t["targets"]) != 1 or t["targets"][0][0] != 0:
+            return None
+        d = t["discr"]
+        if d["k"] not in ("copy", "move") or d["place"]["p"]:
+            return None
+        ds = self.defs().get(d["place"]["l"], [])
+        if len(ds) != 1 or ds[0][0] != "call":
+            return None
+        ct = self.term(ds[0][1])
+        decl = (ct.get("func") or {}).get("declared")
+        if decl not in ("std::cmp::PartialEq::eq", "std::cmp::PartialEq::ne") or len(ct["args"]) != 2:
+            return None
+        for i in (0, 1):
+            variant = self._promoted_variant(ct["args"][1 - i])
+            a = ct["args"][i]
+            if variant is None or a["k"] not in ("copy", "move"):
+                continue
+            ap = self.access_path(a["place"])
+            if ap is None:
+                continue
+            on_true, on_false = t["otherwise"], t["targets"][0][1]
+            if decl.endswith("::ne"):
+                on_true, on_false = on_false, on_true
+            return ap, variant, on_true, on_false
+        return None
+
     def pruned_succ(self, assume):
         """successor function under assumptions {(root, path): variant-name or set of names}."""
         cache = {}
@@ -608,6 +673,15 @@ class Body:
                 return cache[b]
             res = self.succs(b)
             info = self.switch_info(b)
+            einfo = None if info else self.eq_switch_info(b)
+            if einfo and einfo[0] in assume:
+                want = assume[einfo[0]]
+                if isinstance(want, str):
+                    want = {want}
+                if want == {einfo[1]}:
+                    res = [einfo[2]]
+                elif einfo[1] not in want:
+                    res = [einfo[3]]
             if info and info[0] in assume:
                 want = assume[info[0]]
                 if isinstance(want, str):
@@ -868,7 +942,7 @@ def forward_taint(body, seeds, carries=lambda ty: True, sinks=("push", "insert",
     return tainted
 
 
-def bool_consistent_path(body, start, goals, env=None, blocked_edges=(), blocked=()):
+def bool_consistent_path(body, start, goals, env=None, blocked_edges=(), blocked=(), start_stmt=0):
     """Block path start -> goal along which the known values of bool locals stay consistent: `_x = const true/false` and
     copies of known locals are tracked, a switch on a known bool only follows the matching edge.  `env`: {local: bool} known
     at the start.  `blocked_edges`: CFG edges (a, b) that may not be used."""
@@ -878,7 +952,7 @@ def bool_consistent_path(body, start, goals, env=None, blocked_edges=(), blocked
     dq = deque([(start, init)])
     while dq:
         b, e = dq.popleft()
-        if b in goals:
+        if b in goals and not (prev[(b, e)] is None and start_stmt):
             out, cur = [], (b, e)
             while cur is not None:
                 out.append(cur[0])
@@ -886,7 +960,10 @@ def bool_consistent_path(body, start, goals, env=None, blocked_edges=(), blocked
             return out[::-1]
         known = dict(e)
         blk = body.blocks[b]
-        for st in blk["stmts"]:
+        first = prev[(b, e)] is None
+        for i, st in enumerate(blk["stmts"]):
+            if first and i < start_stmt:
+                continue    # the walk starts in the middle of the start block (after the definition `env` talks about)
             if st["k"] != "assign" or st["place"]["p"]:
                 continue
             d = st["place"]["l"]
